@@ -295,8 +295,8 @@ def conditions(tier):
                                                                             ('a' + BS + 'end{E}', 0), ('}', 1), ('', 0))]))
     skn = [('endenv', '?' + BS + 'end{F}?' + BS + 'end{E}'), ('brace', 'x?}?'), ('bracket', '?]?'), ('endenv', '?' + BS + 'end{E}?'), ('math', '?$?'), ('max1', '{?}?'),
            ('max2', BS + 'a{?}?x'), ('plain', BS + 'b[?]{?}?')]
-    for v, sk in skn:
-        conds.append(Cond('nodes_%s_skel' % v, PP, skel_pre(sk) + base, 'body_nodes(s, pos, %r)' % v, timeout=T, twin=False,
+    for vi, (v, sk) in enumerate(skn):
+        conds.append(Cond('nodes_%s_%d_skel' % (v, vi), PP, skel_pre(sk) + base, 'body_nodes(s, pos, %r)' % v, timeout=T, twin=False,
                           cost=2, smoke=[dict(s=skel_fill(sk), pos=p) for p in (0, 1)]))
     conds.append(Cond('expr_le%d' % n, PP, ['len(s) <= %d' % n] + base, 'body_expression(s, pos)', timeout=T, twin=False,
                       smoke=[dict(s=x, pos=0) for x in ('a', '{a}', BS + 'a', ' x', '}', '%c\nx', '$', BS + 'd', '~')]))
